@@ -216,8 +216,10 @@ def MakeCase(i):
 
 def RecordTrace(i):
   case = MakeCase(i)
-  if case is None:
-    return None
+  return PerformCase(case) if case is not None else None
+
+
+def PerformCase(case):
   events, infos, texts = groundrun.Perform(case['versions'], case['attach'],
                                            case['steps'])
   case['events'], case['infos'], case['texts'] = events, infos, texts
@@ -245,6 +247,7 @@ def ValidateTraces(lines, tag, shards=None, timeout=3000):
   """One TLC (GroundTrace, workers 1) per shard.  Returns ({(tid, step):
   verdict}, stats, errors)."""
   shards = shards or max(1, min(common.NCPU, len(lines) // 4))
+  tag = '%s_%d' % (tag, os.getpid())     # concurrent runs do not share shards
   d = common.BuildDir('trace', tag)
   for f in os.listdir(d):
     os.unlink(os.path.join(d, f))
@@ -278,6 +281,9 @@ def ValidateTraces(lines, tag, shards=None, timeout=3000):
     accepted_line = 'Accepted' in r.out
     if r.rc != 0 and not accepted_line:
       errors.append((path, r.rc, r.out[-2500:]))
+  for f in os.listdir(d):
+    os.unlink(os.path.join(d, f))
+  os.rmdir(d)
   want = sum(len(l['steps']) for l in lines)
   if len(verdicts) != want and not errors:
     errors.append(('verdicts missing', want, len(verdicts)))
@@ -338,14 +344,89 @@ def CanonRows(rows):
                 for r in rows)
 
 
+def LiveReach(prog, start):
+  """Predicates `start` reaches when mentions inside aggregating expressions
+  that are assigned to a variable used nowhere else (`x == Sum{y :- P(y)}`,
+  x unused, transitively) are ignored.  Only used to compute the signature of
+  a missing table for the known-findings list, never for a verdict."""
+  by = {p['name']: p for p in prog['preds']}
+
+  def Mentions(node, skip, out, in_dead_agg=False):
+    if isinstance(node, dict):
+      if id(node) in skip:
+        for side in (node['l'], node['r']):
+          Mentions(side, skip, out, 'dead')
+        return
+      if in_dead_agg == 'dead' and node.get('k') == 'agg':
+        return
+      if node.get('k') in ('atom', 'pcall'):
+        out.add(node['p'])
+      for v in node.values():
+        Mentions(v, skip, out, in_dead_agg)
+    elif isinstance(node, list):
+      for v in node:
+        Mentions(v, skip, out, in_dead_agg)
+
+  def Count(node, skip, counts):
+    if isinstance(node, dict):
+      if id(node) in skip:
+        return
+      if node.get('k') == 'var':
+        counts[node['name']] += 1
+      for v in node.values():
+        Count(v, skip, counts)
+    elif isinstance(node, list):
+      for v in node:
+        Count(v, skip, counts)
+
+  def Unifies(node, out):
+    if isinstance(node, dict):
+      if node.get('k') == 'unify':
+        out.append(node)
+      for v in node.values():
+        Unifies(v, out)
+    elif isinstance(node, list):
+      for v in node:
+        Unifies(v, out)
+
+  def RuleMentions(rule):
+    us = []
+    Unifies(rule['body'], us)
+    dead = set()
+    while True:
+      counts = collections.Counter()
+      Count(rule, dead, counts)
+      new = [u for u in us if id(u) not in dead and any(
+          side['k'] == 'var' and counts[side['name']] == 1
+          for side in (u['l'], u['r']))]
+      if not new:
+        break
+      dead |= {id(u) for u in new}
+    out = set()
+    Mentions(rule, dead, out)
+    return out
+  seen, todo = set(), [start]
+  while todo:
+    n = todo.pop()
+    for rule in by[n]['rules'] if n in by else ():
+      for m in RuleMentions(rule):
+        if m not in seen:
+          seen.add(m)
+          todo.append(m)
+  return seen
+
+
 def ClassifyTraceFailures(cases, verdicts, cls, counters, errors):
-  """Returns [(case, [failing verdicts that violate C17])]."""
+  """Returns [(case, [failing verdicts that violate C17])].  Every failing
+  clause of a step is classified on its own: a listed known finding, shared
+  with the same program without @Ground/@AttachDatabase, or a violation."""
   by_tid = {c['tid']: c for c in cases}
   failing = {k: v for k, v in verdicts.items() if not v['ok']}
   if not failing:
     return []
   rowish = {k for k, v in failing.items()
-            if v['clause'] in ('rows', 'table_unfaithful')}
+            if any(c['clause'] in ('rows', 'table_unfaithful')
+                   for c in v['all'])}
   explained = ExplainByDeviations(cases, rowish, 'c17', errors) if rowish else {}
   memo = {}
   bad = collections.defaultdict(list)
@@ -353,48 +434,69 @@ def ClassifyTraceFailures(cases, verdicts, cls, counters, errors):
     case = by_tid[tid]
     ev, info = case['events'][step - 1], case['infos'][step - 1]
     feats = case['meta']['features']
-    if v['clause'] == 'run_failed':
-      sig = {'kind': 'pred_' + ev['status'], 'features': feats,
-             'status': ev['status'], 'cls': info.get('cls'),
-             'msg_head': semrun.CleanMsg(info.get('msg'))}
-      f = cls.Match(sig)
-      if f:
-        counters['known:' + f['id']] += 1
-        continue
-      b = BaseRun(case, ev['ver'], ev['p'], memo)
-      if (b.get('status') == ev['status'] and b.get('cls') == info.get('cls')
-          and semrun.CleanMsg(b.get('msg')) == sig['msg_head']):
-        counters['inherited_from_ungrounded_program'] += 1
-        continue
-      v['signature'] = sig
-      bad[tid].append(v)
-      continue
-    if v['clause'] in ('rows', 'table_unfaithful'):
-      devs = explained.get((tid, step))
-      if devs:
-        fs = [cls.Match({'dev': d, 'kind': 'rows_differ'}) for d in devs]
-        if all(fs):
-          for f in fs:
-            counters['known:' + f['id']] += 1
+    version = case['versions'][ev['ver'] - 1]
+    tab = {g['p']: g['t'] for g in version['grounded']}
+    unexplained = []
+    for c in v['all']:
+      clause = c['clause']
+      if clause == 'run_failed':
+        sig = {'kind': 'pred_' + ev['status'], 'features': feats,
+               'status': ev['status'], 'cls': info.get('cls'),
+               'msg_head': semrun.CleanMsg(info.get('msg'))}
+        f = cls.Match(sig)
+        if f:
+          counters['known:' + f['id']] += 1
           continue
-      # shared with the ungrounded program?  (then it is C01/C02's business)
-      version = case['versions'][ev['ver'] - 1]
-      if v['clause'] == 'rows':
-        pairs = [(ev['p'], ev['out'])]
+        b = BaseRun(case, ev['ver'], ev['p'], memo)
+        if (b.get('status') == ev['status'] and
+            b.get('cls') == info.get('cls') and
+            semrun.CleanMsg(b.get('msg')) == sig['msg_head']):
+          counters['inherited_from_ungrounded_program'] += 1
+          continue
+        unexplained.append(dict(c, signature=sig))
+      elif clause == 'table_missing':
+        live = LiveReach(version['prog'], ev['p'])
+        rest = []
+        for q in c['on']:
+          sig = {'kind': 'table_missing', 'clause': clause,
+                 'features': feats,
+                 'only_in_unused_aggregate_assignment': q not in live}
+          f = cls.Match(sig)
+          if f:
+            counters['known:' + f['id']] += 1
+          else:
+            rest.append(q)
+        if rest:
+          unexplained.append(dict(c, on=rest))
+      elif clause in ('rows', 'table_unfaithful'):
+        devs = explained.get((tid, step))
+        if devs:
+          fs = [cls.Match({'dev': d, 'kind': 'rows_differ'}) for d in devs]
+          if all(fs):
+            for f in fs:
+              counters['known:' + f['id']] += 1
+            continue
+        # shared with the ungrounded program?  (then it is C01/C02's business)
+        if clause == 'rows':
+          pairs = [(ev['p'], ev['out'])]
+        else:
+          pairs = [(q, ev['file'].get(tab[q], [])) for q in c['on']]
+        same = True
+        for q, rows in pairs:
+          b = BaseRun(case, ev['ver'], q, memo)
+          if (b.get('status') != 'ok' or
+              CanonRows(b['rows']) != CanonRows(rows)):
+            same = False
+        if same:
+          counters['inherited_from_ungrounded_program'] += 1
+          continue
+        unexplained.append(dict(c, signature={
+            'kind': 'rows_differ', 'clause': clause, 'features': feats,
+            'explained_by': devs or []}))
       else:
-        tab = {g['p']: g['t'] for g in version['grounded']}
-        pairs = [(q, ev['file'].get(tab[q], [])) for q in v['on']]
-      same = True
-      for q, rows in pairs:
-        b = BaseRun(case, ev['ver'], q, memo)
-        if b.get('status') != 'ok' or CanonRows(b['rows']) != CanonRows(rows):
-          same = False
-      if same:
-        counters['inherited_from_ungrounded_program'] += 1
-        continue
-      v['signature'] = {'kind': 'rows_differ', 'clause': v['clause'],
-                        'features': feats, 'explained_by': devs or []}
-    bad[tid].append(v)
+        unexplained.append(c)
+    if unexplained:
+      bad[tid].append(dict(v, violating=unexplained))
   return [(by_tid[tid], vs) for tid, vs in sorted(bad.items())]
 
 
@@ -417,7 +519,10 @@ def Run(tier):
                   initargs=({'cache': not quick},))
   try:
     traces_async = pool.map_async(RecordTrace, range(n_traces), chunksize=2)
-    jobs = [(n, ix) for n in ('MCGround', 'MCGroundFull') for ix in FAMILIES]
+    # quick: every history of <= 4 actions; thorough: also the complete state
+    # space (histories of any length, history variable dropped)
+    jobs = [(n, ix) for n in (('MCGround',) if quick else
+                              ('MCGround', 'MCGroundFull')) for ix in FAMILIES]
     with cf.ThreadPoolExecutor(max_workers=len(jobs)) as ex:
       models = list(ex.map(RunModel, jobs))
     t_model = clock()
@@ -439,6 +544,9 @@ def Run(tier):
     replayed = pool.map(ReplayHistory, items, chunksize=4) if items else []
     t_replay = clock() - t_model
     cases = [c for c in traces_async.get() if c is not None]
+    repros = semrun.Reproducers(PROP)
+    for c in pool.map(PerformCase, repros, chunksize=1) if repros else []:
+      cases.append(c)
   finally:
     pool.terminate()
     pool.join()
@@ -541,7 +649,8 @@ def Run(tier):
     violations.append(path)
     if len(violations) <= 25:
       print('  trace %s: %s' % (case['tid'], [
-          (v['step'], v['clause'], v['on']) for v in vs]))
+          (v['step'], [(c['clause'], c['on']) for c in v['violating']])
+          for v in vs]))
       common.Violation(PROP, path)
   if errors:
     machinery.append('GroundTrace: %s' % json.dumps(errors)[:2500])
